@@ -62,8 +62,8 @@ func (p *P0x9212) Parse(jtMsg *jt808.JTMessage) error {
 	p.P0x9212RetransmitPacketList = nil // 复用对象时不保留上一次解析的列表
 	for i := 0; i < int(p.RetransmitPacketNumber); i++ {
 		p.P0x9212RetransmitPacketList = append(p.P0x9212RetransmitPacketList, P0x9212RetransmitPacket{
-			DataOffset: binary.BigEndian.Uint32(body[4+l+2*i:]),
-			DataLength: binary.BigEndian.Uint32(body[4+l+2*i+4:]),
+			DataOffset: binary.BigEndian.Uint32(body[4+l+8*i:]),
+			DataLength: binary.BigEndian.Uint32(body[4+l+8*i+4:]),
 		})
 	}
 	return nil
